@@ -4,7 +4,7 @@ set -e
 cd "$(dirname "$0")/.."
 git merge --no-edit "$1" >/dev/null 2>&1 || true
 for f in lean/OpmVerif.lean lean/Driver/Main.lean MANIFEST.json known_findings.txt harness/common/vh.hpp $(git diff --name-only --diff-filter=U | grep '^evidence/' || true); do
-  git checkout --ours -- "$f" 2>/dev/null || true
+  git checkout --ours -- "$f" 2>/dev/null && git add -- "$f" 2>/dev/null || true
 done
 if git diff --name-only --diff-filter=U | grep -q .; then echo "UNRESOLVED CONFLICTS:"; git diff --name-only --diff-filter=U; exit 1; fi
 python3 lib/regen_all.py >/dev/null
